@@ -272,14 +272,23 @@ fn check_case(st: &mut St, c: &Case, full_comp: usize) {
 /// execute exactly as they would without the embedded newline".  Differential: the payload P
 /// and its twin P' (every newline replaced by 'x') must give the same errors, output and calls
 /// (the calls compared after replacing P by P' in the log), through run and every chunking.
-fn check_faulty_prefix(st: &mut St, prefix: &[u8], slot: usize, enc: Enc, payload: &[u8], full_comp: usize) {
+fn check_faulty_prefix(st: &mut St, prefix: &[u8], hdr: Option<&[u8]>, slot: usize, enc: Enc, payload: &[u8], full_comp: usize) {
     st.cases += 1;
     let twin: Vec<u8> = payload.iter().map(|&b| if b == b'\n' { b'x' } else { b }).collect();
     let build = |p: &[u8]| -> Vec<u8> {
         let s = &SLOTS[slot];
         let mut m = prefix.to_vec();
-        m.extend_from_slice(b";:A:");
-        m.extend_from_slice(s.leaf.as_bytes());
+        match hdr {
+            // the payload unit itself is the faulty one: this header does not take these parameters
+            Some(h) => {
+                m.push(b';');
+                m.extend_from_slice(h);
+            }
+            None => {
+                m.extend_from_slice(b";:A:");
+                m.extend_from_slice(s.leaf.as_bytes());
+            }
+        }
         m.push(b' ');
         if let Some((t, _)) = s.before {
             m.extend_from_slice(t.as_bytes());
@@ -315,7 +324,8 @@ fn check_faulty_prefix(st: &mut St, prefix: &[u8], slot: usize, enc: Enc, payloa
                 ("engine", engine.to_string()),
                 ("encoding", enc.name().to_string()),
                 ("payload_contains_newline", "true".to_string()),
-                ("faulty_unit_before_payload", "true".to_string()),
+                ("faulty_unit_before_payload", hdr.is_none().to_string()),
+                ("payload_unit_is_the_faulty_one", hdr.is_some().to_string()),
                 ("spurious_error", (obs.errs.len() > reference.errs.len()).to_string()),
                 ("calls_as_expected", (norm(&obs).calls == reference.calls).to_string()),
             ];
@@ -449,13 +459,25 @@ fn main() {
         }
     }
     // faulty unit before the payload unit
-    let mut fcases: Vec<(&'static [u8], usize, Enc, Vec<u8>)> = vec![];
+    let mut fcases: Vec<(&'static [u8], Option<&'static [u8]>, usize, Enc, Vec<u8>)> = vec![];
     for prefix in [&b"Z"[..], b"@", b"B 300", b"A:X", b"A:B 1", b"B 1 2"] {
         for (si, s) in SLOTS.iter().enumerate().take(4) {
             let encs: &[Enc] = if s.block { &[Enc::Block] } else { &[Enc::Single, Enc::Double] };
             for &enc in encs {
                 for p in [&b"\n"[..], b"a\nb", b"\n:E\n", b"x\n*R\n", b";\n,", b"\n\n"] {
-                    fcases.push((prefix, si, enc, p.to_vec()));
+                    fcases.push((prefix, None, si, enc, p.to_vec()));
+                }
+            }
+        }
+    }
+    // the payload unit itself is faulty (undefined header, no parameter declared, wrong type,
+    // wrong count), behind a sound unit
+    for hdr in [&b":Z"[..], b":A:Y", b":B", b":A:Q?", b"Z:Z"] {
+        for (si, s) in SLOTS.iter().enumerate().take(4) {
+            let encs: &[Enc] = if s.block { &[Enc::Block] } else { &[Enc::Single, Enc::Double] };
+            for &enc in encs {
+                for p in [&b"\n"[..], b"a\nb", b"\n:E\n", b"x\n*R\n", b";\n,", b"\n\n"] {
+                    fcases.push((b":E", Some(hdr), si, enc, p.to_vec()));
                 }
             }
         }
@@ -470,7 +492,7 @@ fn main() {
             }
         } else {
             let f = &fcases[p - nparts];
-            check_faulty_prefix(st, f.0, f.1, f.2, &f.3, full_comp);
+            check_faulty_prefix(st, f.0, f.1, f.2, f.3, &f.4, full_comp);
         }
     });
     let mut out = Outcome::new("C08");
@@ -505,7 +527,7 @@ fn main() {
                "unit_positions": [0, 1, 2], "other_units": "relative B and E (resolve to A:B / A:E only with intact path context)",
                "chunkings": format!("all compositions up to {full_comp} bytes, else every single cut and every pair of cuts + regular 1/2/3"),
                "N": "smallest instantiated N >= |m|, next larger, >= 2|m|, 64",
-               "faulty_unit_before_the_payload": {"prefix_units": ["Z", "@", "B 300", "A:X", "A:B 1", "B 1 2"], "cases": fcases.len(), "oracle": "same observation as with every payload newline replaced by 'x'"},
+               "faulty_unit_before_the_payload": {"prefix_units": ["Z", "@", "B 300", "A:X", "A:B 1", "B 1 2"], "cases": fcases.len(), "payload_unit_itself_faulty": {"headers": [":Z", ":A:Y", ":B", ":A:Q?", "Z:Z"], "behind": ":E"}, "oracle": "same observation as with every payload newline replaced by 'x'"},
                "cases": t.cases, "cases_with_newline_in_payload": t.newline_payloads, "process_executions": t.chunkings}),
     );
     out.cov("skipped_crashing_executions", t.crashed);
